@@ -42,6 +42,7 @@ type Case struct {
 	Lists   [][]Op // one operation list per goroutine; list 0 is also run sequentially first
 	NoSeq   bool   // skip the sequential phase: the goroutines make the very first calls on the fresh object
 	BadTail bool   // image: a malformed WIN_CERTIFICATE (wrong revision) follows the valid entries
+	Reuse   int    // database: > 0 decodes it with Unmarshal from the caller's bytes.Buffer behind Reuse-1 other bytes; the caller then resets that buffer and encodes the database into it
 }
 
 var opKinds = map[string][]string{
@@ -123,6 +124,9 @@ func genCase(t *rapid.T) Case {
 			keep = append(keep, big)
 		}
 		c.DB = esl.Encode(keep)
+		if c.Object == "database" && rapid.Bool().Draw(t, "decoded_from_a_reused_buffer") {
+			c.Reuse = 1 + rapid.SampledFrom([]int{0, 1, 4, 16, 40, 1233}).Draw(t, "prefix")
+		}
 	}
 	c.NoSeq = rapid.Bool().Draw(t, "noseq")
 	ng := rapid.SampledFrom([]int{1, 2, 2, 3, 4, 8, 16}).Draw(t, "goroutines")
@@ -310,6 +314,7 @@ func checkCase(c Case) error {
 	id := gen.FixedIdents()[c.Ident%4]
 	// build the shared object and an independent twin for the baseline
 	var concurrentPhase atomic.Bool
+	shared := false
 	build := func() (runner, func() string, error) {
 		switch c.Object {
 		case "image":
@@ -323,6 +328,23 @@ func checkCase(c Case) error {
 			}
 			return imageRunner(bin, c.Signers, c.Img, own, &concurrentPhase), func() string { return digest(bin.Bytes()) + digest(bin.Hash(crypto.SHA256)) }, nil
 		case "database":
+			if shared && c.Reuse > 0 {
+				// the way the variable layer decodes: from a bytes.Buffer the caller owns and goes on using. The buffer held
+				// other bytes in front (a descriptor, say); afterwards it is reset and the database is encoded into it.
+				buf := bytes.NewBuffer(append(make([]byte, c.Reuse-1), c.DB...))
+				buf.Next(c.Reuse - 1)
+				var db signature.SignatureDatabase
+				if err := db.Unmarshal(buf); err != nil {
+					return nil, nil, fmt.Errorf("bad case: %v", err)
+				}
+				buf.Reset()
+				db.Marshal(buf)
+				if !bytes.Equal(buf.Bytes(), c.DB) {
+					return nil, nil, fmt.Errorf("database: decoded from a buffer and encoded into the same (reset) buffer, it is %s, the stream was %s", digest(buf.Bytes()), digest(c.DB))
+				}
+				hx.Class("database_decoded_from_a_buffer_the_caller_reuses")
+				return dbRunner(&db), func() string { return digest(db.Bytes()) }, nil
+			}
 			db, err := signature.ReadSignatureDatabase(bytes.NewReader(c.DB))
 			if err != nil {
 				return nil, nil, fmt.Errorf("bad case: %v", err)
@@ -367,6 +389,7 @@ func checkCase(c Case) error {
 			}
 		}
 		var err error
+		shared = true
 		run, final, err = build()
 		if err != nil {
 			return err
